@@ -49,60 +49,75 @@ theorem waitSem_nonone {cx : Cx} {fuel sL : Nat} {w : List (Option BP)} {hs dIn 
   | true => obtain ⟨o, rfl⟩ := h.dsome hn; exact noNone_jump _ _
   | false => rw [h.dnone hn]; exact hd
 
-/-- a case handler with a block -/
+/-- a case handler with a block: with its labels, or folded into the header jumps -/
 theorem caseStep_c (cx : Cx) (fuel : Nat) (endL : Nat) (bp : BP) (hpos : bp.positive = true) (body : Stmts) {bodyM : M (List LItem)}
-    (hret : Ret (fun r => loneJump r = none) bodyM)
     (hBody : ∀ env', EnvOK cx env' → PM cx bodyM (fun k b => Src.trStmts fuel [] env' (toSrcStmts body) k b) env')
     {st : SwSt} {s : St} {st' : SwSt} {s' : St} (hw : WaitOK st.waiting) (h : caseStep endL bp false bodyM st s = .ok (st', s')) :
-    SameStk s s' ∧ st'.waiting = [] ∧ ∃ hs d1 sL eB ops sa sb n,
-      st'.hdrJumps = st.hdrJumps ++ (hs ++ [LItem.ljump ⟨n, bp.name, bp.params⟩ (some sL)]) ∧
-      st'.caseOps = st.caseOps ++ ([LItem.label sL false] ++ ops ++ [LItem.label eB false]) ∧ st'.defaultOps = d1 ∧
-      WaitSem cx fuel sL st.waiting hs st.defaultOps d1 ∧
+    SameStk s s' ∧ st'.waiting = [] ∧ ∃ hs d1 ops sa sb n, st'.defaultOps = d1 ∧ bodyM sa = .ok (ops, sb) ∧
       (∀ env', EnvOK cx env' → PieceOK cx ops sa sb (fun k b => Src.trStmts fuel [] env' (toSrcStmts body) k b) env') ∧
-      sa.loops = s.loops ∧ sa.cases = endL :: s.cases ∧ NamedLe sb s' := by
+      sa.loops = s.loops ∧ sa.cases = endL :: s.cases ∧ NamedLe sb s' ∧
+      ((∃ sL eB, st'.hdrJumps = st.hdrJumps ++ (hs ++ [LItem.ljump ⟨n, bp.name, bp.params⟩ (some sL)]) ∧
+          st'.caseOps = st.caseOps ++ ([LItem.label sL false] ++ ops ++ [LItem.label eB false]) ∧
+          WaitSem cx fuel sL st.waiting hs st.defaultOps d1) ∨
+       (∃ l eB, loneJump ops = some (some l) ∧
+          st'.hdrJumps = st.hdrJumps ++ (hs ++ [LItem.ljump ⟨n, bp.name, bp.params⟩ (some l)]) ∧
+          st'.caseOps = st.caseOps ++ [LItem.label eB false] ∧ WaitSem cx fuel l st.waiting hs st.defaultOps d1)) := by
   unfold caseStep at h
   simp only [Bool.false_eq_true, ↓reduceIte, bind_ok, pushCase_ok, popCase_ok] at h
   obtain ⟨u1, s1, h1, blk, s2, h2, u2, s3, h3, h4⟩ := h
   simp only [Prod.mk.injEq] at h1 h3
   obtain ⟨_, rfl⟩ := h1
   obtain ⟨_, rfl⟩ := h3
-  obtain ⟨ops, sb, sL, eB, hrun, e2, hitems, hstart, hh⟩ := case_block_shape hret h2
-  rw [hstart] at h4
-  simp only [bind_ok, pure_ok] at h4
-  obtain ⟨p, s4, h5, h6⟩ := h4
-  obtain ⟨hs', dops'⟩ := p
-  simp only [Prod.mk.injEq] at h6
-  obtain ⟨rfl, rfl⟩ := h6
-  obtain ⟨e5, ws⟩ := waiting_sem cx fuel sL _ _ _ _ _ _ hw h5
+  obtain ⟨ops, sb, hrun, e2, hsh⟩ := case_block_shape h2
   have hP := fun env' he' => hBody env' he' _ _ _ hrun
   have hP0 := hP {} (envOK_empty cx)
-  have hhdr : ∃ n, blk.hdrs = [LItem.ljump ⟨n, bp.name, bp.params⟩ (some sL)] := by
-    generalize blk.hdrs = H at hh
-    cases hh with
-    | cons n hrest =>
-      cases hrest
-      exact ⟨n, by simp [hpos]⟩
-  obtain ⟨n, hhdr⟩ := hhdr
   have hstk : SameStk s s2.popCase := by
     refine ⟨?_, ?_, fun n id h => e2.3 n id (hP0.named n id h)⟩
     · show s2.loops = s.loops
       rw [e2.1, hP0.loops]; rfl
     · show s2.cases.tail = s.cases
       rw [e2.2, hP0.cases]; rfl
-  refine ⟨hstk.trans e5, rfl, hs', dops', sL, eB, ops, _, sb, n, ?_, ?_, rfl, ws, hP, rfl, rfl,
-    fun n id h => e5.3 n id (e2.3 n id h)⟩
-  · simp only [hhdr, List.append_assoc]
-  · simp only [hitems]
+  have hsingle : ∀ (t : BP → Nat), HdrsTo t [bp] blk.hdrs → ∃ n, blk.hdrs = [LItem.ljump ⟨n, bp.name, bp.params⟩ (some (t bp))] := by
+    intro t hh
+    generalize blk.hdrs = H at hh
+    cases hh with
+    | cons n hrest =>
+      cases hrest
+      exact ⟨n, rfl⟩
+  rcases hsh with ⟨l, eB, _, hlone, hitems, hstart, hh⟩ | ⟨sL, eB, hitems, hstart, hh⟩
+  · rw [hstart] at h4
+    simp only [bind_ok, pure_ok] at h4
+    obtain ⟨p, s4, h5, h6⟩ := h4
+    obtain ⟨hs', dops'⟩ := p
+    simp only [Prod.mk.injEq] at h6
+    obtain ⟨rfl, rfl⟩ := h6
+    obtain ⟨e5, ws⟩ := waiting_sem cx fuel l _ _ _ _ _ _ hw h5
+    obtain ⟨n, hhdr⟩ := hsingle _ hh
+    refine ⟨hstk.trans e5, rfl, hs', dops', ops, _, sb, n, rfl, hrun, hP, rfl, rfl, fun n id h => e5.3 n id (e2.3 n id h),
+      .inr ⟨l, eB, hlone, ?_, ?_, ws⟩⟩
+    · simp only [hhdr, List.append_assoc]
+    · simp only [hitems]
+  · rw [hstart] at h4
+    simp only [bind_ok, pure_ok] at h4
+    obtain ⟨p, s4, h5, h6⟩ := h4
+    obtain ⟨hs', dops'⟩ := p
+    simp only [Prod.mk.injEq] at h6
+    obtain ⟨rfl, rfl⟩ := h6
+    obtain ⟨e5, ws⟩ := waiting_sem cx fuel sL _ _ _ _ _ _ hw h5
+    obtain ⟨n, hhdr⟩ := hsingle _ hh
+    refine ⟨hstk.trans e5, rfl, hs', dops', ops, _, sb, n, rfl, hrun, hP, rfl, rfl, fun n id h => e5.3 n id (e2.3 n id h),
+      .inl ⟨sL, eB, ?_, ?_, ws⟩⟩
+    · simp only [hhdr, hpos, if_true, List.append_assoc]
+    · simp only [hitems]
 
 /-- the default handler with a block -/
 theorem defaultStep_c (cx : Cx) (fuel : Nat) (endL : Nat) (body : Stmts) {bodyM : M (List LItem)}
-    (hret : Ret (fun r => loneJump r = none) bodyM)
     (hBody : ∀ env', EnvOK cx env' → PM cx bodyM (fun k b => Src.trStmts fuel [] env' (toSrcStmts body) k b) env')
     {st : SwSt} {s : St} {st' : SwSt} {s' : St} (hw : WaitOK st.waiting) (h : defaultStep endL false bodyM st s = .ok (st', s')) :
     SameStk s s' ∧ st'.waiting = [] ∧ ∃ hs d1 sL eB ops sa sb n0,
       st'.hdrJumps = st.hdrJumps ++ hs ∧
       st'.caseOps = st.caseOps ++ ([LItem.label sL false] ++ ops ++ [LItem.label eB false]) ∧ st'.defaultOps = d1 ∧
-      WaitSem cx fuel sL st.waiting hs [LItem.ljump ⟨n0, Gen.op_jump, []⟩ (some sL)] d1 ∧
+      WaitSem cx fuel sL st.waiting hs [LItem.ljump ⟨n0, Gen.op_jump, []⟩ (some sL)] d1 ∧ bodyM sa = .ok (ops, sb) ∧
       (∀ env', EnvOK cx env' → PieceOK cx ops sa sb (fun k b => Src.trStmts fuel [] env' (toSrcStmts body) k b) env') ∧
       sa.loops = s.loops ∧ sa.cases = endL :: s.cases ∧ NamedLe sb s' := by
   unfold defaultStep at h
@@ -111,7 +126,9 @@ theorem defaultStep_c (cx : Cx) (fuel : Nat) (endL : Nat) (body : Stmts) {bodyM 
   simp only [Prod.mk.injEq] at h1 h3
   obtain ⟨_, rfl⟩ := h1
   obtain ⟨_, rfl⟩ := h3
-  obtain ⟨ops, sb, sL, eB, hrun, e2, hitems, hstart, hh⟩ := case_block_shape hret h2
+  obtain ⟨ops, sb, hrun, e2, hsh⟩ := case_block_shape h2
+  rcases hsh with ⟨l, eB, hne, _⟩ | ⟨sL, eB, hitems, hstart, hh⟩
+  · exact absurd rfl hne
   rw [hstart] at h4
   simp only [bind_ok, pure_ok] at h4
   obtain ⟨jj, s4, h5, p, s5, h6, h7⟩ := h4
@@ -128,24 +145,24 @@ theorem defaultStep_c (cx : Cx) (fuel : Nat) (endL : Nat) (body : Stmts) {bodyM 
       rw [e2.1, hP0.loops]; rfl
     · show s2.cases.tail = s.cases
       rw [e2.2, hP0.cases]; rfl
-  exact ⟨(hstk.trans (sameStk_tickedOp _ _)).trans e6, rfl, hs', dops', sL, eB, ops, _, sb, _, rfl, by simp only [hitems], rfl, ws, hP, rfl, rfl,
-    fun n id h => e6.3 n id (e2.3 n id h)⟩
+  exact ⟨(hstk.trans (sameStk_tickedOp _ _)).trans e6, rfl, hs', dops', sL, eB, ops, _, sb, _, rfl, by simp only [hitems], rfl, ws, hrun, hP,
+    rfl, rfl, fun n id h => e6.3 n id (e2.3 n id h)⟩
 
 /-! ### all case handlers -/
 
 /-- step 3 of `SwitchBlock.collect` over the handlers of `cs`, from any state of the step -/
-def CasesC (cx : Cx) (fuel : Nat) (sw : String) (cs : Cases) (run : Nat → List BP → SwSt → M SwSt) : Prop :=
+def CasesC (cx : Cx) (fuel : Nat) (sw : String) (nf : Bool) (cs : Cases) (run : Nat → List BP → SwSt → M SwSt) : Prop :=
   ∀ (env : Src.Env), EnvOK cx env → ∀ (endL : Nat) (bps : List BP) (st : SwSt) (s : St) (st' : SwSt) (s' : St),
     BpsOK sw cs bps → WaitOK st.waiting → (if hasNone st.waiting then 1 else 0) + countDefaults cs ≤ 1 →
     run endL bps st s = .ok (st', s') →
     SameStk s s' ∧ (NoNone st.defaultOps → NoNone st'.defaultOps) ∧
     ∃ Hn Cn, st'.hdrJumps = st.hdrJumps ++ Hn ∧ st'.caseOps = st.caseOps ++ Cn ∧ NoNone Hn ∧ NoNone Cn ∧
-      (st'.waiting = [] →
-        SwSem cx fuel env endL s.loops s.cases s' (wSrc st.waiting (toSrcCases sw cs)) Hn Cn st.defaultOps st'.defaultOps)
+      (st'.waiting = [] → ∀ FI : Prop, (nf = true → ¬ FI) →
+        SwSem cx fuel env endL s.loops s.cases s' FI (wSrc st.waiting (toSrcCases sw cs)) Hn Cn st.defaultOps st'.defaultOps)
 
-theorem SwSem.stk {cx : Cx} {fuel : Nat} {env : Src.Env} {endL : Nat} {L L' : List (Nat × Nat)} {Cs Cs' : List Nat} {sE : St} {SC : Src.Cases}
-    {Hn Cn dIn dOut : List LItem} (h : SwSem cx fuel env endL L Cs sE SC Hn Cn dIn dOut) (hl : L = L') (hc : Cs = Cs') :
-    SwSem cx fuel env endL L' Cs' sE SC Hn Cn dIn dOut := by
+theorem SwSem.stk {cx : Cx} {fuel : Nat} {env : Src.Env} {endL : Nat} {L L' : List (Nat × Nat)} {Cs Cs' : List Nat} {sE : St} {FI : Prop} {SC : Src.Cases}
+    {Hn Cn dIn dOut : List LItem} (h : SwSem cx fuel env endL L Cs sE FI SC Hn Cn dIn dOut) (hl : L = L') (hc : Cs = Cs') :
+    SwSem cx fuel env endL L' Cs' sE FI SC Hn Cn dIn dOut := by
   subst hl hc; exact h
 
 theorem isTest_caseName (sw name : String) (h : isTest name = true) : isTest (caseName sw name) = true := by
